@@ -10,6 +10,11 @@
 //!       ["rt"]   collect_registers -> apply_registers on a fresh state (which replaces the current one)
 //!       ["rtb"]  collect_registers -> pack_registers -> unpack_registers (+ TEMPn carried beside the blob,
 //!                as CoreRuntime::save/load_snapshot do through metadata.temps) -> apply_registers (fresh)
+//!       ["rtf"]  the file path: `CoreRuntime::save_snapshot(path)` on the current runtime, then
+//!                `CoreRuntime::new().load_snapshot(path)`; the freshly loaded runtime REPLACES the current one
+//!                (so a later "rtf" is a save by a runtime that was itself restored from a snapshot).  The bare
+//!                `LlamaState` has no file path of its own and does what "rtb" does.  The file lives in the
+//!                request's "dir" (<verif>/scratch/...) and is deleted before the op returns.
 //!       ["collect"]  the collect_registers map itself
 use crate::util::err;
 use sc62015_core::llama::opcodes::RegName;
@@ -28,6 +33,32 @@ pub const NAMES: [&str; 28] = [
 #[derive(Default)]
 pub struct State {
     rt: Option<CoreRuntime>,
+    /// the session runtime went through a snapshot file: it is replaced by `CoreRuntime::new()` before the
+    /// next history, so that every history starts from a never-restored runtime
+    restored: bool,
+    files: u64,
+}
+
+/// Deletes the scratch snapshot file when the op is over, whatever happened.
+struct TempFile(std::path::PathBuf);
+
+impl Drop for TempFile {
+    fn drop(&mut self) {
+        let _ = std::fs::remove_file(&self.0);
+    }
+}
+
+/// save_snapshot on `rt`, load_snapshot into a brand-new runtime, which is returned.
+fn file_roundtrip(rt: &CoreRuntime, dir: &str, serial: u64) -> Result<CoreRuntime, String> {
+    let path = std::path::Path::new(dir).join(format!("c08-{}-{}.pcsnap", std::process::id(), serial));
+    let guard = TempFile(path);
+    rt.save_snapshot(&guard.0)
+        .map_err(|e| format!("save_snapshot: {e}"))?;
+    let mut fresh = CoreRuntime::new();
+    fresh
+        .load_snapshot(&guard.0)
+        .map_err(|e| format!("load_snapshot: {e}"))?;
+    Ok(fresh)
 }
 
 fn reg_of(name: &str) -> Option<RegName> {
@@ -122,8 +153,18 @@ fn roundtrip(state: &LlamaState, blob: bool) -> Result<(LlamaState, String), Str
     }
 }
 
-fn run_seq(ops: &[Value], rt: &mut CoreRuntime) -> Result<Vec<Value>, String> {
+fn run_seq(
+    ops: &[Value],
+    rt: &mut CoreRuntime,
+    dir: Option<&str>,
+    restored: &mut bool,
+    files: &mut u64,
+) -> Result<Vec<Value>, String> {
     let mut st = LlamaState::new();
+    if *restored {
+        *rt = CoreRuntime::new();
+        *restored = false;
+    }
     rt.state = LlamaState::new();
     let mut out = Vec::with_capacity(ops.len());
     for op in ops {
@@ -167,6 +208,18 @@ fn run_seq(ops: &[Value], rt: &mut CoreRuntime) -> Result<Vec<Value>, String> {
                 let after = read_all(&st, rt);
                 out.push(json!({"before": before, "after": after, "blob": blob}));
             }
+            "rtf" => {
+                let dir = dir.ok_or("rtf needs a scratch dir")?;
+                let before = read_all(&st, rt);
+                let (fresh_st, _) = roundtrip(&st, true)?;
+                *files += 1;
+                *restored = true;
+                let fresh_rt = file_roundtrip(rt, dir, *files)?;
+                st = fresh_st;
+                *rt = fresh_rt;
+                let after = read_all(&st, rt);
+                out.push(json!({"before": before, "after": after, "blob": ""}));
+            }
             "collect" => {
                 out.push(json!({"st": map_to_json(&collect_registers(&st)),
                                 "rt": map_to_json(&collect_registers(&rt.state))}));
@@ -185,17 +238,19 @@ pub fn handle(verb: &str, req: &Value, sess: &mut State) -> Value {
                 Some(s) => s,
                 None => return err("c08.run needs seqs"),
             };
+            let dir = req.get("dir").and_then(|v| v.as_str());
             if sess.rt.is_none() {
                 sess.rt = Some(CoreRuntime::new());
             }
-            let rt = sess.rt.as_mut().unwrap();
+            let State { rt, restored, files } = sess;
+            let rt = rt.as_mut().unwrap();
             let mut results = Vec::with_capacity(seqs.len());
             for seq in seqs {
                 let ops = match seq.as_array() {
                     Some(o) => o,
                     None => return err("sequence is not an array"),
                 };
-                match run_seq(ops, rt) {
+                match run_seq(ops, rt, dir, restored, files) {
                     Ok(obs) => results.push(json!({"obs": obs})),
                     Err(e) => results.push(json!({"error": e})),
                 }
